@@ -410,7 +410,7 @@ func c20CheckNoClear(c *h.Ctx, first, second c20Call) {
 		return
 	}
 	if obs[2].Class != fresh[0].Class || !bytes.Equal(obs[3].Bytes, append(append([]byte{}, obs[1].Bytes...), fresh[1].Bytes...)) {
-		c.Fail("C20/version-flows-across-messages/"+c20Describe(second), "a message carrying its own version is encoded differently after "+c20Describe(first)+" on the same (uncleared) encoder", cs)
+		c.Fail("C20/version-flows-across-messages/encoder", "a message carrying its own version is encoded differently after "+c20Describe(first)+" on the same (uncleared) encoder", cs)
 	}
 }
 
@@ -483,6 +483,60 @@ func c20CheckFreshObjects(c *h.Ctx, refs []c20MsgOut) {
 		})
 		check(after + " was decoded")
 		_ = in
+	}
+}
+
+// c20CheckDecoderReuse: one Decoder over two concatenated messages; the second carries its
+// own version first and must decode as it does alone, whatever version the first left.
+func c20CheckDecoderReuse(c *h.Ctx, seedA, seedB uint64) {
+	cs := map[string]any{"mode": "decoder-reuse", "seed_a": fmt.Sprint(seedA), "seed_b": fmt.Sprint(seedB)}
+	plain := reflect.TypeFor[c20Plain]()
+	gen := func(seed uint64) (v c20Plain, in []byte, ok bool) {
+		defer func() {
+			if recover() != nil {
+				ok = false
+			}
+		}()
+		v = c20Gen(h.NewRand(seed), plain, 3, false).Interface().(c20Plain)
+		return v, c20SynMarshal("ttlv", 0x540600, v), true
+	}
+	_, inA, okA := gen(seedA)
+	_, inB, okB := gen(seedB)
+	if !okA || !okB {
+		return
+	}
+	decodeB := func(d *ttlv.Decoder) c20MsgOut {
+		return c20GuardOut(func() c20MsgOut {
+			var b c20Plain
+			if err := d.TagAny(0x540600, &b); err != nil {
+				return c20MsgOut{Class: "err"}
+			}
+			return c20MsgOut{Class: "ok", Bytes: c20SynMarshal("ttlv", 0x540600, b)}
+		})
+	}
+	d1, err := ttlv.NewTTLVDecoder(append([]byte{}, inB...))
+	if err != nil {
+		return
+	}
+	alone := decodeB(&d1)
+	d2, err := ttlv.NewTTLVDecoder(append(append([]byte{}, inA...), inB...))
+	if err != nil {
+		return
+	}
+	first := c20GuardOut(func() c20MsgOut {
+		var a c20Plain
+		if err := d2.TagAny(0x540600, &a); err != nil {
+			return c20MsgOut{Class: "err"}
+		}
+		return c20MsgOut{Class: "ok"}
+	})
+	if first.Class != "ok" {
+		return
+	}
+	after := decodeB(&d2)
+	c.Count("one-decoder-second-message:" + alone.Class)
+	if after.Class != alone.Class || !bytes.Equal(after.Bytes, alone.Bytes) {
+		c.Fail("C20/version-flows-across-messages/decoder", fmt.Sprintf("second message on one Decoder: %s/%d bytes, alone: %s/%d bytes", after.Class, len(after.Bytes), alone.Class, len(alone.Bytes)), cs)
 	}
 }
 
@@ -624,6 +678,12 @@ func c20Replay(c *h.Ctx, tt *c20Types) (handled bool) {
 			c20ReplayChildren(c, cc)
 			c.Eval(string(b), true)
 		}
+	case "decoder-reuse":
+		var a, bb uint64
+		fmt.Sscan(fmt.Sprint(m["seed_a"]), &a)
+		fmt.Sscan(fmt.Sprint(m["seed_b"]), &bb)
+		c20CheckDecoderReuse(c, a, bb)
+		c.Eval(string(b), true)
 	case "decode-twice":
 		c20CheckDecodeTwice(c, c20CorpusFor(c), int(m["index"].(float64)))
 		c.Eval(string(b), true)
@@ -847,6 +907,14 @@ func driveC20(c *h.Ctx) error {
 			c.Eval("noclear:"+string(key), true)
 			c.Count("pair:no-clear")
 		}
+	}
+
+	for i := 0; i < c.Pick(200, 2000); i++ {
+		r := c.Rng.Fork(uint64(60000 + i))
+		a, b := r.U64(), r.U64()
+		c20CheckDecoderReuse(c, a, b)
+		c.Eval(fmt.Sprintf("decoder-reuse:%d:%d", a, b), true)
+		c.Count("pair:one-decoder")
 	}
 
 	// ---- (c) scheduled threads on cold caches
